@@ -86,7 +86,7 @@ func plans(id, tier string) (Plan, bool) {
 			{Pkg: pkgV2, Harness: "c03_corpus", Params: "t=0.8;families=window;split=4", Shards: 16},
 			{Pkg: pkgV2, Harness: "c03_corpus", Params: "t=0.5;families=" + map[bool]string{false: "exact", true: "exact,scenario;ndocs=12"}[th], Shards: pick(6, 16)},
 			{Pkg: pkgV2, Harness: "c03_corpus", Params: "t=0.8;families=selfrepeat;ndocs=" + fmt.Sprint(pick(120, 431)), Shards: 16},
-			{Pkg: pkgV2, Harness: "c03_corpus", Params: "t=0.8;families=deeplines,wordset;split=3;ndocs=" + fmt.Sprint(pick(100, 431)), Shards: 16},
+			{Pkg: pkgV2, Harness: "c03_corpus", Params: "t=0.8;families=deeplines,wordset,oneline;split=3;ndocs=" + fmt.Sprint(pick(100, 431)), Shards: 16},
 			{Pkg: pkgV2, Harness: "c03_corpus", Params: "t=0.8;trace=all;families=concat,scenario,edit1,periodic;ndocs=" + fmt.Sprint(pick(24, 120)), Shards: 16},
 			{Pkg: pkgV2, Harness: "c03_bytes", Shards: pick(2, 8)},
 			{Pkg: pkgV2, Harness: "c03_names", Shards: 1},
@@ -101,6 +101,7 @@ func plans(id, tier string) (Plan, bool) {
 			{Pkg: pkgV2, Harness: "c04_maporder_small", Instr: "v2map", Params: map[bool]string{false: "maxlen=5;deviations=1", true: "maxlen=7;deviations=1"}[th], Shards: pick(8, 16)},
 			{Pkg: pkgV2, Harness: "c04_maporder_small", Instr: "v2map", Params: map[bool]string{false: "maxlen=3;deviations=2", true: "maxlen=5;deviations=2"}[th], Shards: pick(4, 16)},
 			{Pkg: pkgV2, Harness: "c04_maporder_corpus", Instr: "v2map", Params: map[bool]string{false: "docs=32;deviations=1", true: "docs=431;deviations=1"}[th], Shards: pick(8, 16)},
+			{Pkg: pkgV2, Harness: "c04_maporder_many", Instr: "v2map", Shards: 4},
 			{Pkg: pkgV2, Harness: "c04_history", Shards: pick(4, 12)},
 			{Pkg: pkgV2, Harness: "c04_history", Params: "trace=wildcard", Shards: pick(4, 12)},
 			{Pkg: pkgV2, Harness: "c04_config", Shards: pick(4, 8)},
@@ -271,6 +272,7 @@ func plans(id, tier string) (Plan, bool) {
 			{Pkg: pkgSC, Harness: "c13_addvalue", Instr: "v1", Shards: pick(8, 16)},
 			{Pkg: pkgSC, Harness: "c13_history", Instr: "v1", Shards: pick(4, 16)},
 			{Pkg: pkgSC, Harness: "c13_many", Instr: "v1", Shards: pick(8, 16)},
+			{Pkg: pkgSC, Harness: "c13_twice", Instr: "v1", Shards: pick(8, 16)},
 		}...)}, true
 	case "C14":
 		var jobs []Job
